@@ -147,6 +147,12 @@ func goVals(raws []json.RawMessage) []interface{} {
 	return out
 }
 
+// NullValues are the Go values that are null for JSON: nil itself and nil pointers.
+func NullValues() []interface{} {
+	type st struct{ A int }
+	return []interface{}{nil, (*int)(nil), (*string)(nil), (*float64)(nil), (*st)(nil)}
+}
+
 // CounterDelta scales a model delta (4-bit two's complement) to int32.
 func CounterDelta(d int) int32 { return int32(uint32(int32(d)) << 28) }
 
@@ -182,11 +188,16 @@ func (in *Inst) callOn(api interface{}, c *spec.Call) (res Result) {
 		a := api.(mapAPI)
 		switch c.Op {
 		case "put":
-			var v interface{}
-			if t := tag(c.V); t != vals.Nil {
-				v = vals.Go(t)
+			if t := tag(c.V); t == vals.Nil {
+				// a null value: nil itself and nil pointers of several types - every one must be refused
+				res.Err = true
+				for _, nv := range NullValues() {
+					_, err := a.Put(c.K, nv)
+					res.Err = res.Err && !isNilErr(err)
+				}
+				return
 			}
-			old, err := a.Put(c.K, v)
+			old, err := a.Put(c.K, vals.Go(tag(c.V)))
 			res.Err = !isNilErr(err)
 			res.Ret, _ = vals.CanonJSON(old)
 		case "remove":
